@@ -1,195 +1,12 @@
-(* C18, CubeSet histories: (1) inflation - every history over responses in which the responses of a
-   numeric-measure CubeSet are used by that CubeSet only is pure (induction over arbitrary op
-   lists); (2) augment_response - idempotence, purity of repeated CubeSets. *)
+(* C18, CubeSet histories over a summary response and a single-filter-column response:
+   augment_response (repaired, 502c5e20 / 537d2a70) returns a cube on a response of its own, so EVERY
+   history is pure and the caller's filter response is the pristine one afterwards; the idempotence
+   of the padding (what made repeating the same CubeSet safe under the former in-place design) is
+   still a theorem about [augment] as a function. *)
 From Coq Require Import ZArith List Bool Lia Arith String.
-From CC Require Import Base.Ident Model.Shim Model.History Proofs.HistoryArray.
+From CC Require Import Base.Ident Model.Shim Model.History.
 Import ListNotations.
 Local Open Scope nat_scope.
-
-(* ---- inflate_all, exactly --------------------------------------------------------------------- *)
-Lemma inflate_all_notin l : forall r i, ~ In i l -> inflate_all r l i = r i.
-Proof.
-  unfold inflate_all. induction l as [|a t IH]; intros r i H; simpl; [reflexivity|].
-  rewrite IH by (intros Hin; apply H; right; exact Hin).
-  destruct (Nat.eqb_spec i a) as [E|N]; [exfalso; apply H; left; congruence|reflexivity].
-Qed.
-
-Lemma inflate_all_nodup l : forall r i, NoDup l -> In i l -> inflate_all r l i = S (r i).
-Proof.
-  unfold inflate_all. induction l as [|a t IH]; intros r i Hnd Hin; simpl; [contradiction|].
-  inversion Hnd as [|? ? Hnot Hnd']; subst. destruct Hin as [E|Hin].
-  - subst a. pose proof (inflate_all_notin t (fun j => if Nat.eqb j i then S (r j) else r j) i Hnot) as K.
-    unfold inflate_all in K. rewrite K. rewrite Nat.eqb_refl. reflexivity.
-  - rewrite (IH _ i Hnd' Hin). destruct (Nat.eqb_spec i a) as [E|N]; [subst; contradiction|reflexivity].
-Qed.
-
-(* ---- histories ----------------------------------------------------------------------------------- *)
-Definition rop_eq_dec (x y : rop) : {x = y} + {x <> y}.
-Proof. decide equality; try apply Nat.eq_dec. apply (list_eq_dec Nat.eq_dec). Defined.
-
-(* x is a numeric set (on the pristine responses) => y is the same operation or shares no response *)
-Definition compat (r0 : nat -> nat) (x y : rop) : Prop :=
-  numeric0 r0 x = true -> y = x \/ (forall i, In i (touches x) -> ~ In i (touches y)).
-(* H3: the responses of a numeric-measure CubeSet are used by that CubeSet only *)
-Definition groups_ok (r0 : nat -> nat) (ops : list rop) : Prop :=
-  (forall x, In x ops -> numeric0 r0 x = true -> NoDup (touches x)) /\
-  (forall x y, In x ops -> In y ops -> compat r0 x y).
-
-(* has response i been inflated by one of the executed operations? *)
-Definition infl (r0 : nat -> nat) (done : list rop) (i : nat) : bool :=
-  existsb (fun x => numeric0 r0 x && existsb (Nat.eqb i) (touches x)) done.
-
-Lemma existsb_eqb_In i l : existsb (Nat.eqb i) l = true <-> In i l.
-Proof.
-  rewrite existsb_exists. split.
-  - intros [j [Hj E]]. apply Nat.eqb_eq in E. subst. exact Hj.
-  - intros H. exists i. split; [exact H|apply Nat.eqb_refl].
-Qed.
-
-Lemma infl_true r0 done i :
-  infl r0 done i = true <-> exists x, In x done /\ numeric0 r0 x = true /\ In i (touches x).
-Proof.
-  unfold infl. rewrite existsb_exists. split.
-  - intros [x [Hx B]]. apply andb_true_iff in B. destruct B as [B1 B2].
-    exists x. split; [exact Hx|]. split; [exact B1|]. apply existsb_eqb_In. exact B2.
-  - intros [x [Hx [B1 B2]]]. exists x. split; [exact Hx|]. apply andb_true_iff. split; [exact B1|].
-    apply existsb_eqb_In. exact B2.
-Qed.
-
-Lemma infl_false r0 done i :
-  (forall x, In x done -> numeric0 r0 x = true -> ~ In i (touches x)) -> infl r0 done i = false.
-Proof.
-  intros H. destruct (infl r0 done i) eqn:E; [|reflexivity]. apply infl_true in E.
-  destruct E as [x [Hx [B1 B2]]]. exfalso. exact (H x Hx B1 B2).
-Qed.
-
-Lemma infl_snoc r0 done x i :
-  infl r0 (done ++ [x]) i = infl r0 done i || (numeric0 r0 x && existsb (Nat.eqb i) (touches x)).
-Proof. unfold infl. rewrite existsb_app. simpl. rewrite orb_false_r. reflexivity. Qed.
-
-Definition RInv (r0 r : nat -> nat) (done : list rop) : Prop :=
-  forall i, r i = if infl r0 done i then S (r0 i) else r0 i.
-
-Definition pristine_out (r0 : nat -> nat) (x : rop) : list pkind :=
-  match snd (rstep (r0, []) x) with [k] => k | _ => [] end.
-
-Lemma is_numeric_set_ext r r' l :
-  (forall i, In i l -> r i = r' i) -> is_numeric_set r l = is_numeric_set r' l.
-Proof.
-  intros H. destruct l as [|i [|j t]]; simpl; try reflexivity.
-  rewrite (H i (or_introl eq_refl)). reflexivity.
-Qed.
-
-Lemma map_kind_ext (r r' : nat -> nat) l :
-  (forall i, In i l -> r i = r' i) -> map (fun i => kind_of (r i)) l = map (fun i => kind_of (r' i)) l.
-Proof. intros H. apply map_ext_in. intros i Hi. rewrite (H i Hi). reflexivity. Qed.
-
-Lemma numeric_head_pos r l : is_numeric_set r l = true -> exists i t, l = i :: t /\ r i = 0.
-Proof.
-  destruct l as [|i [|j t]]; simpl; try discriminate. intros H. apply Nat.eqb_eq in H.
-  exists i, (j :: t). split; [reflexivity|exact H].
-Qed.
-
-Lemma rstep_inv r0 r done out x all :
-  groups_ok r0 all -> incl (done ++ [x]) all -> RInv r0 r done ->
-  let sr := rstep (r, out) x in
-  RInv r0 (fst sr) (done ++ [x]) /\ snd sr = out ++ [pristine_out r0 x].
-Proof.
-  intros [GN GC] Hincl HI.
-  assert (Hx : In x all) by (apply Hincl; apply in_or_app; right; left; reflexivity).
-  assert (Hd : forall y, In y done -> In y all) by (intros y Hy; apply Hincl; apply in_or_app; left; exact Hy).
-  destruct x as [i|l]; simpl.
-  - (* a single cube: its response was never inflated *)
-    assert (E : infl r0 done i = false).
-    { apply infl_false. intros y Hy Ny Hin. destruct (GC y (MkCube i) (Hd y Hy) Hx Ny) as [E|Dj].
-      - subst y. discriminate Ny.
-      - apply (Dj i Hin). left. reflexivity. }
-    split.
-    + intros j. rewrite infl_snoc. simpl. rewrite orb_false_r. apply HI.
-    + unfold pristine_out. simpl. rewrite (HI i), E. reflexivity.
-  - destruct (numeric0 r0 (MkSet l)) eqn:Nx; pose proof Nx as Nx'; simpl in Nx'.
-    + (* a numeric-measure set *)
-      pose proof (GN _ Hx Nx) as Hnd. simpl in Hnd.
-      assert (P : pristine_out r0 (MkSet l) = map (fun i => kind_of (S (r0 i))) l).
-      { unfold pristine_out. simpl. rewrite Nx'. simpl. apply map_ext_in.
-        intros i Hi. rewrite (inflate_all_nodup l r0 i Hnd Hi). reflexivity. }
-      destruct (in_dec rop_eq_dec (MkSet l) done) as [Hdone|Hnew].
-      * (* run before: its responses are inflated, it is no longer numeric *)
-        assert (Ei : forall i, In i l -> r i = S (r0 i)).
-        { intros i Hi. rewrite (HI i). replace (infl r0 done i) with true; [reflexivity|].
-          symmetry. apply infl_true. exists (MkSet l). split; [exact Hdone|]. split; [exact Nx|exact Hi]. }
-        assert (Ns : is_numeric_set r l = false).
-        { destruct (is_numeric_set r l) eqn:E; [|reflexivity]. exfalso.
-          destruct (numeric_head_pos r l E) as [i [t [El Ez]]]. subst l.
-          rewrite (Ei i (or_introl eq_refl)) in Ez. discriminate. }
-        rewrite Ns. simpl. split.
-        -- intros j. rewrite infl_snoc. rewrite (HI j).
-           destruct (infl r0 done j) eqn:Ej; [reflexivity|]. simpl. rewrite Nx'. simpl.
-           destruct (existsb (Nat.eqb j) l) eqn:Ein; [|reflexivity].
-           apply existsb_eqb_In in Ein. exfalso.
-           assert (infl r0 done j = true); [|congruence].
-           apply infl_true. exists (MkSet l). split; [exact Hdone|]. split; [exact Nx|exact Ein].
-        -- rewrite P. f_equal. f_equal. apply map_ext_in. intros i Hi. rewrite (Ei i Hi). reflexivity.
-      * (* first run: its responses are pristine *)
-        assert (Ei : forall i, In i l -> r i = r0 i).
-        { intros i Hi. rewrite (HI i). rewrite infl_false; [reflexivity|].
-          intros y Hy Ny Hin. destruct (GC y (MkSet l) (Hd y Hy) Hx Ny) as [E|Dj].
-          - subst y. exact (Hnew Hy).
-          - exact (Dj i Hin Hi). }
-        assert (Ns : is_numeric_set r l = true).
-        { rewrite (is_numeric_set_ext r r0 l Ei). exact Nx'. }
-        rewrite Ns. simpl. split.
-        -- intros j. rewrite infl_snoc. simpl. rewrite Nx'. simpl.
-           destruct (existsb (Nat.eqb j) l) eqn:Ein.
-           ++ apply existsb_eqb_In in Ein. rewrite orb_true_r.
-              rewrite (inflate_all_nodup l r j Hnd Ein). rewrite (Ei j Ein). reflexivity.
-           ++ rewrite orb_false_r. rewrite inflate_all_notin; [apply HI|].
-              intros Hin. apply existsb_eqb_In in Hin. congruence.
-        -- rewrite P. f_equal. f_equal. apply map_ext_in. intros i Hi.
-           rewrite (inflate_all_nodup l r i Hnd Hi). rewrite (Ei i Hi). reflexivity.
-    + (* not a numeric set: its responses were never inflated *)
-      assert (Ei : forall i, In i l -> r i = r0 i).
-      { intros i Hi. rewrite (HI i). rewrite infl_false; [reflexivity|].
-        intros y Hy Ny Hin. destruct (GC y (MkSet l) (Hd y Hy) Hx Ny) as [E|Dj].
-        - subst y. congruence.
-        - exact (Dj i Hin Hi). }
-      rewrite (is_numeric_set_ext r r0 l Ei), Nx'. simpl. split.
-      * intros j. rewrite infl_snoc. simpl. rewrite Nx'. simpl. rewrite orb_false_r. apply HI.
-      * unfold pristine_out. simpl. rewrite Nx'. simpl. f_equal. f_equal. apply map_kind_ext. exact Ei.
-Qed.
-
-Lemma rfold_inv r0 all ops : forall r done out,
-  groups_ok r0 all -> incl (done ++ ops) all -> RInv r0 r done ->
-  snd (fold_left rstep ops (r, out)) = out ++ map (pristine_out r0) ops.
-Proof.
-  induction ops as [|x ops IH]; intros r done out G Hincl HI; [simpl; rewrite app_nil_r; reflexivity|].
-  cbn [fold_left map].
-  assert (Hi1 : incl (done ++ [x]) all).
-  { intros y Hy. apply Hincl. apply in_app_or in Hy. apply in_or_app.
-    destruct Hy as [Hy|[Hy|[]]]; [left; exact Hy|right; left; exact Hy]. }
-  pose proof (rstep_inv r0 r done out x all G Hi1 HI) as S. cbv zeta in S.
-  destruct (rstep (r, out) x) as [r' out'] eqn:E. simpl in S. destruct S as [S1 S2]. subst out'.
-  rewrite (IH r' (done ++ [x]) _ G); [rewrite <- app_assoc; reflexivity| |exact S1].
-  rewrite <- app_assoc. exact Hincl.
-Qed.
-
-(* THE CubeSet history theorem: arbitrary op lists, numeric-measure sets included *)
-Theorem response_reads_pure_groups r0 ops :
-  groups_ok r0 ops -> rrun r0 ops = rrun_pristine r0 ops.
-Proof.
-  intros G. unfold rrun, rrun_pristine.
-  rewrite (rfold_inv r0 ops ops r0 [] [] G); [reflexivity| |].
-  - simpl. apply incl_refl.
-  - intros i. reflexivity.
-Qed.
-
-(* the former hypothesis (no numeric set at all) is a special case *)
-Lemma rop_ok_groups r0 ops : Forall (rop_ok r0) ops -> groups_ok r0 ops.
-Proof.
-  intros F. rewrite Forall_forall in F. split.
-  - intros x Hx N. specialize (F x Hx). destruct x; simpl in *; congruence.
-  - intros x y Hx _ N. specialize (F x Hx). destruct x; simpl in *; congruence.
-Qed.
 
 (* ---- augment_response ------------------------------------------------------------------------ *)
 Lemma set_nth_len {A} n (a : A) l : List.length (set_nth n a l) = List.length l.
@@ -228,50 +45,30 @@ Proof.
   intros H. unfold augment. rewrite (augment_length f s f' H). rewrite Nat.eqb_refl. reflexivity.
 Qed.
 
-(* a history made of the SAME CubeSet over (s, f) any number of times is pure - provided the
-   first one does not raise (an IndexError leaves the filter response half-edited) *)
-Lemma augment_left_ok f s f' : augment f s = Some f' -> augment_left f s = f'.
-Proof. intros H. unfold augment_left. rewrite H. reflexivity. Qed.
+(* ---- histories ------------------------------------------------------------------------------------ *)
+Definition a_out (s f : aresp) (x : aop) : option (list Z) :=
+  match snd (astep s (f, []) x) with [k] => k | _ => None end.
 
-Lemma astep_set_ok s f out f1 :
-  augment f s = Some f1 -> astep s (f, out) ASet = (f1, out ++ [Some (a_counts f1)]).
-Proof. intros E. unfold astep. rewrite (augment_left_ok f s f1 E), E. reflexivity. Qed.
+Lemma astep_spec s f out x : astep s (f, out) x = (f, out ++ [a_out s f x]).
+Proof. destruct x; reflexivity. Qed.
 
-Lemma a_fold_fixed s f1 n : forall out,
-  augment f1 s = Some f1 ->
-  snd (fold_left (astep s) (repeat ASet n) (f1, out)) = out ++ repeat (Some (a_counts f1)) n.
+Lemma a_fold s f0 ops : forall out,
+  fold_left (astep s) ops (f0, out) = (f0, out ++ map (a_out s f0) ops).
 Proof.
-  induction n as [|n IH]; intros out H; [simpl; rewrite app_nil_r; reflexivity|].
-  cbn [repeat fold_left]. rewrite (astep_set_ok s f1 out f1 H).
-  rewrite (IH _ H). rewrite <- app_assoc. reflexivity.
+  induction ops as [|x ops IH]; intros out; simpl; [rewrite app_nil_r; reflexivity|].
+  change (fold_left (astep s) ops (astep s (f0, out) x) = (f0, out ++ a_out s f0 x :: map (a_out s f0) ops)).
+  rewrite astep_spec, IH, <- app_assoc. reflexivity.
 Qed.
 
-Lemma map_repeat_c {A B} (f : A -> B) a n : map f (repeat a n) = repeat (f a) n.
-Proof. induction n as [|n IH]; simpl; [reflexivity|]. rewrite IH. reflexivity. Qed.
+(* THE augment history theorem: EVERY list of CubeSet([s, f]) / Cube(f) operations - padded or
+   not, raising (summary ids that are no positions) or not *)
+Theorem a_reads_pure s f0 ops : a_run s f0 ops = a_run_pristine s f0 ops.
+Proof. unfold a_run, a_run_pristine. rewrite (a_fold s f0 ops []). reflexivity. Qed.
 
-Theorem aset_reads_pure s f0 n :
-  augment f0 s <> None ->
-  a_run s f0 (repeat ASet n) = a_run_pristine s f0 (repeat ASet n).
-Proof.
-  intros Hok. unfold a_run, a_run_pristine. destruct n as [|n]; [reflexivity|].
-  destruct (augment f0 s) as [f1|] eqn:E; [|congruence].
-  cbn [repeat fold_left map]. rewrite (astep_set_ok s f0 [] f1 E).
-  rewrite (a_fold_fixed s f1 n _ (augment_idem f0 s f1 E)). cbn [app snd]. f_equal.
-  rewrite map_repeat_c. rewrite (astep_set_ok s f0 [] f1 E). reflexivity.
-Qed.
+(* ... and the caller's filter response is the pristine one afterwards *)
+Theorem a_run_state_unchanged s f0 ops : a_run_state s f0 ops = f0.
+Proof. unfold a_run_state. rewrite (a_fold s f0 ops []). reflexivity. Qed.
 
-(* when nothing has to be augmented (same number of counts) every history is pure *)
-Theorem a_noaug_reads_pure s f0 ops :
-  List.length (a_counts f0) = List.length (a_counts s) -> a_run s f0 ops = a_run_pristine s f0 ops.
-Proof.
-  intros L. assert (A : augment f0 s = Some f0) by (unfold augment; rewrite L, Nat.eqb_refl; reflexivity).
-  assert (St : forall out x, astep s (f0, out) x = (f0, out ++ [Some (a_counts f0)])).
-  { intros out x. destruct x; [apply astep_set_ok; exact A|reflexivity]. }
-  unfold a_run, a_run_pristine.
-  assert (G : forall out, fold_left (astep s) ops (f0, out) =
-              (f0, out ++ map (fun x => match snd (astep s (f0, []) x) with [k] => k | _ => None end) ops)).
-  { induction ops as [|x ops IH]; intros out; [simpl; rewrite app_nil_r; reflexivity|].
-    cbn [fold_left map]. rewrite (St out x), (St [] x). rewrite IH. cbn [snd app].
-    rewrite <- app_assoc. reflexivity. }
-  rewrite G. reflexivity.
-Qed.
+(* the histories the former design made safe are special cases *)
+Theorem aset_reads_pure s f0 n : a_run s f0 (repeat ASet n) = a_run_pristine s f0 (repeat ASet n).
+Proof. apply a_reads_pure. Qed.
